@@ -370,7 +370,7 @@ def plan_strategy(model: dict[str, Any], always: bool = False, weights: dict[str
                 ignore.append("other_module." + draw(st.sampled_from(names)))
         free = [nm for nm in names if nm not in no and "$M." + nm not in ignore]
         only = draw(st.lists(st.sampled_from(free), min_size=1, max_size=2, unique=True)) if free and draw(ints(0, 9)) < 4 else []
-        if only and (no or ignore) and draw(ints(0, 9)) >= 9:  # deliberate overlap -> documented ValueError
+        if only and (no or ignore) and draw(ints(0, 9)) >= 7:  # deliberate overlap -> documented ValueError
             clash = (no + [m[3:] for m in ignore if m.startswith("$M.")])[0]
             if clash not in only:
                 only.append(clash)
